@@ -619,6 +619,11 @@ def run_e(prop, tier, n_st=350, n_pool=350, dfs_budget=500, long_runs=30):
         be_fails, be_runs = backend_checks(ld, r, tier, prop)
         for msg in be_fails[:5]:
             failures.append(dict(kind='schedule', summary=msg, config=dict(kind='backend'), got_from_impl=msg))
+    if prop == 'C07':
+        ra_fails, ra_runs = dataset_level_readahead(ld, r, tier)
+        be_runs += ra_runs
+        for msg in ra_fails[:5]:
+            failures.append(dict(kind='schedule', summary=msg, config=dict(kind='dataset_readahead'), got_from_impl=msg))
     cfgs = set(_cfg_key(x) for x in runs)
     logs = set(_log_key(x) for x in runs)
     cov = dict(programs=len(runs), evaluations=len(runs), distinct_nontrivial=len([1 for l in logs if len(l) >= 8]), distinct=len(logs),
@@ -726,4 +731,52 @@ def backend_checks(ld, r, tier, prop):
                             runs += 1
                             if got != [1, 2, 3] or err != 3:
                                 fails.append(f'backend {be} {variant} w={w} b={b}: function fails at position 3: consumer got {got} then {err!r}')
+    return fails, runs
+
+
+# ------------------------------------------------------------------ read-ahead through the Dataset API (OS schedule, stalled consumer)
+def dataset_level_readahead(ld, r, tier):
+    """ds.map(fn, num_workers, buffer_size), ds.batch(..).batch_map(fn, num_workers, buffer_size) and
+    ds.prefetch(w, b) - value and key iteration - with a consumer that stalls after every example: the number of
+    function applications started beyond those delivered must stay <= buffer_size (+ workers in flight for
+    single-thread prefetch: <= buffer_size + 2 pulled), whatever default the callee has."""
+    import time, warnings
+    fails, runs = [], 0
+    n = 60
+    cfgs = [(2, 2), (1, 1), (3, 4), (2, 3)] if tier == 'quick' else [(1, 1), (1, 2), (2, 2), (2, 3), (3, 3), (3, 4), (2, 4)]
+    with warnings.catch_warnings():
+        warnings.simplefilter('ignore')
+        for (w, b) in cfgs:
+            for kind in ('parmap', 'parmap_items', 'batch_map', 'prefetch', 'prefetch_items', 'prefetch1', 'prefetch1_items'):
+                started = []
+
+                def fn(x):
+                    started.append(x)
+                    return x
+                src = ld.new({f'k{i:02d}': i for i in range(n)})
+                per = 1
+                if kind == 'parmap': it = iter(src.map(fn, num_workers=w, buffer_size=b))
+                elif kind == 'parmap_items': it = iter(src.map(fn, num_workers=w, buffer_size=b).items())
+                elif kind == 'batch_map':
+                    per = 2
+                    it = iter(src.batch(2).batch_map(fn, num_workers=w, buffer_size=b))
+                elif kind == 'prefetch': it = iter(src.map(fn).prefetch(w, b))
+                elif kind == 'prefetch_items':
+                    if w > 1:
+                        continue            # multi-worker prefetch refuses items() loudly
+                    it = iter(src.map(fn).prefetch(w, b).items())
+                elif kind == 'prefetch1': it = iter(src.map(fn).prefetch(1, b))
+                else: it = iter(src.map(fn).prefetch(1, b).items())
+                runs += 1
+                worst = 0
+                try:
+                    for k in range(1, 6):
+                        next(it)
+                        time.sleep(0.03)
+                        worst = max(worst, len(started) - k * per)
+                finally:
+                    it.close()
+                bound = (b + 2) if kind.startswith('prefetch1') or (kind.startswith('prefetch') and w == 1) else b * per
+                if worst > bound:
+                    fails.append(f'{kind} num_workers={w} buffer_size={b}: {worst} function applications ahead of the consumer (bound {bound})')
     return fails, runs
